@@ -1426,6 +1426,7 @@ session_tail(victim *v, sess_exp *se, plan *pl, int fd, bool hs_ok, int pre0, bo
 	check_bystanders(v, do_new && !(held && !vp->single), false);
 	pump(v);
 	PHASE("bystanders");
+	if (vf_verbose) fprintf(stderr, "  session %u %s end=%s written=%zu deliverable=%d delivered=%d vclosed=%d pre=%d rem=%d\n", se->serial, pl->mut, endnames[pl->endact], written, se->ndeliverable, se->ndelivered, vclosed, atomic_load(&v->pre), atomic_load(&v->rem));
 	session_report(v, se, pl, vclosed, written, bytes.n);
 	if ((se->serial & 63) == 1 || (se->closeexp == CE_HARD && (se->serial & 7) == 0)) {
 		char hex[100];
@@ -2118,6 +2119,16 @@ static const int udp_generic[] = { M_VALID, M_LEN_0, M_LEN_1, M_LEN_MAXM1, M_LEN
 static void
 pick_plan(victim *v, plan *pl, vf_rng *r)
 {
+	const char *force = getenv("C11_FORCE_MUT"); // debugging aid: generic mutation by name
+	if (force != NULL) {
+		for (int m = 0; m < M_STREAM_N; m++) {
+			if (!strcmp(force, mutnames[m]) && plan_mutate(v, pl, r, m)) {
+				const char *e = getenv("C11_FORCE_END");
+				if (e) pl->endact = atoi(e);
+				return;
+			}
+		}
+	}
 	for (;;) {
 		if (v->tran == T_WS) {
 			uint32_t x = vf_below(r, 100);
@@ -2322,6 +2333,9 @@ main(int argc, char **argv)
 			const vproto *vp  = &vprotos[(idx + (long) vf_below(&r, NVPROTO) * (vf_chance(&r, 1, 4) ? 1 : 0) + vf_shard * 5) % NVPROTO];
 			size_t        rm  = recvmaxes[vf_below(&r, 3)];
 			int           ttl = (int[]){ 1, 2, 3, 8, 15 }[vf_below(&r, 5)];
+			if (getenv("C11_FORCE_PROTO")) {
+				for (int i = 0; i < NVPROTO; i++) if (!strcmp(vprotos[i].name, getenv("C11_FORCE_PROTO"))) vp = &vprotos[i];
+			}
 			bool          wc  = !vp->single || vf_chance(&r, 1, 3);
 			int           nsess = vf_tier ? 24 : 16;
 			bool          dribble = rm != (1u << 20) && vf_chance(&r, 1, 4);
